@@ -26,6 +26,37 @@
    current source is [cfg_fixed]. *)
 From Coq Require Import List Arith Bool PeanoNat.
 Import ListNotations.
+From Oras Require Import Base.Prelude Generated.GC09.
+Close Scope N_scope.
+Open Scope nat_scope.
+
+(* Tables regenerated from the Go source on every run (Generated/GC09.v):
+   isKnownAlgorithm_cases  the case list of content/oci isKnownAlgorithm
+   IsManifest_cases        the case list of internal/descriptor IsManifest
+   The harness sends an algorithm-directory code / a node-kind code; which go-digest
+   constant is which directory name and which media-type constant belongs to which
+   generator kind is stated here by hand. *)
+Definition alg_const (code : nat) : str :=
+  match code with
+  | 0 => b "digest.SHA256"      (* blobs/sha256 *)
+  | 1 => b "digest.SHA512"      (* blobs/sha512 *)
+  | 2 => b "digest.SHA384"      (* blobs/sha384 *)
+  | _ => b "-"                  (* any other directory, or a plain file under blobs/ *)
+  end.
+Definition alg_known (code : nat) : bool :=
+  existsb (str_eqb (alg_const code)) isKnownAlgorithm_cases.
+
+Definition kind_const (k : nat) : str :=
+  match k with
+  | 1 => b "ocispec.MediaTypeImageManifest"
+  | 2 => b "docker.MediaTypeManifest"
+  | 3 => b "ocispec.MediaTypeImageIndex"
+  | 4 => b "docker.MediaTypeManifestList"
+  | 5 => b "spec.MediaTypeArtifactManifest"
+  | _ => b "-"                  (* layers, configs, foreign layers *)
+  end.
+Definition is_manifest_kind (k : nat) : bool :=
+  existsb (str_eqb (kind_const k)) IsManifest_cases.
 
 Inductive ref := RTag (t : nat) | RDig (n : nat).
 
@@ -47,7 +78,8 @@ Fixpoint dedup (l : list nat) : list nat :=
 Definition removeb (x : nat) (l : list nat) : list nat :=
   filter (fun y => negb (Nat.eqb y x)) l.
 
-Record stray := { s_id : nat; s_known : bool; s_valid : bool }.
+Record stray := { s_id : nat; s_alg : nat; s_valid : bool }.
+Definition s_known (s : stray) : bool := alg_known (s_alg s).
 
 Record state := {
   blobs : list nat;
